@@ -15,6 +15,7 @@ func MessageTransformSubscriberDecorator(transform func(*Message)) SubscriberDec
 		return &messageTransformSubscriberDecorator{
 			sub:       sub,
 			transform: transform,
+			closing:   make(chan struct{}),
 		}, nil
 	}
 }
@@ -38,6 +39,9 @@ type messageTransformSubscriberDecorator struct {
 
 	transform   func(*Message)
 	subscribeWg sync.WaitGroup
+
+	closing     chan struct{}
+	closingOnce sync.Once
 }
 
 func (t *messageTransformSubscriberDecorator) Subscribe(ctx context.Context, topic string) (<-chan *Message, error) {
@@ -51,7 +55,11 @@ func (t *messageTransformSubscriberDecorator) Subscribe(ctx context.Context, top
 	go func() {
 		for msg := range in {
 			t.transform(msg)
-			out <- msg
+			select {
+			case out <- msg:
+			case <-t.closing:
+				// nobody needs to read the output channel after Close, don't block on it
+			}
 		}
 		close(out)
 		t.subscribeWg.Done()
@@ -63,6 +71,7 @@ func (t *messageTransformSubscriberDecorator) Subscribe(ctx context.Context, top
 func (t *messageTransformSubscriberDecorator) Close() error {
 	err := t.sub.Close()
 
+	t.closingOnce.Do(func() { close(t.closing) })
 	t.subscribeWg.Wait()
 	return err
 }
